@@ -5,6 +5,8 @@ import (
 	"fmt"
 	"math"
 	"math/rand/v2"
+	"strings"
+	"sync"
 
 	"golang.org/x/image/font/sfnt"
 
@@ -445,6 +447,74 @@ func runC05(c *mon.Ctx) {
 		}
 	})
 
+	// ---- the same interpretation when several fonts are read at the same time ----
+	// (the interpreter must not keep state that survives a call or is shared
+	// between calls: a charstring means the same whatever else is being read)
+	c.Stratum("concurrent-read", c.N(60, 3000), func(k *mon.Case) {
+		r := k.Rng
+		const nFonts = 8
+		datas := make([][]byte, nFonts)
+		for i := range datas {
+			n := 2 + r.IntN(5)
+			f := c05newFont(r, n, r.IntN(4) == 0)
+			for gid := 0; gid < n; gid++ {
+				p := c05program(r, c05randOpts(r), "")
+				f.progs = append(f.progs, p)
+				f.codes = append(f.codes, c05carve(f.tables, p.toks, f.fdsel[gid], 0, 0))
+			}
+			datas[i] = f.bytes(r)
+		}
+		digestOf := func(data []byte) string {
+			fnt, err := cff.Read(bytes.NewReader(data))
+			if err != nil {
+				return "error: " + err.Error()
+			}
+			var b strings.Builder
+			for _, g := range fnt.Glyphs {
+				fmt.Fprintf(&b, "%v|%v|%v|%v;", g.Width, g.HStem, g.VStem, g.Cmds)
+			}
+			return b.String()
+		}
+		alone := make([]string, nFonts)
+		for i, d := range datas {
+			var s string
+			if k.Guard("cff.Read", func() { s = digestOf(d) }) {
+				return
+			}
+			alone[i] = s
+		}
+		for round := 0; round < 4; round++ {
+			got := make([]string, nFonts)
+			var wg sync.WaitGroup
+			for i := range datas {
+				wg.Add(1)
+				go func(i int) {
+					defer wg.Done()
+					if pv, _ := mon.Try(func() { got[i] = digestOf(datas[i]) }); pv != nil {
+						got[i] = fmt.Sprint("panic: ", pv)
+					}
+				}(i)
+			}
+			wg.Wait()
+			k.Evals(nFonts)
+			for i := range got {
+				if got[i] != alone[i] {
+					a, b := got[i], alone[i]
+					if len(a) > 300 {
+						a = a[:300] + "…"
+					}
+					if len(b) > 300 {
+						b = b[:300] + "…"
+					}
+					k.Fail("mismatch", "concurrent-read-differs", "font %d of %d read concurrently gives a different result than read alone\n concurrent: %s\n alone:      %s", i, nFonts, a, b)
+					return
+				}
+			}
+		}
+		k.Distinct("concurrent", k.Index)
+		k.Class("concurrent-read")
+	})
+
 	// ---- isolated operators: one path operator and one arithmetic fragment per program ----
 	nIso := len(c05pathOps) * (len(c05fragNames) + 1)
 	c.Stratum("isolated", c.N(2*nIso, 40*nIso), func(k *mon.Case) {
@@ -710,6 +780,7 @@ func runC05(c *mon.Ctx) {
 		}
 	}
 	c.Require(req...)
+	c.Require("concurrent-read", "flex1:tie")
 }
 
 var _ = cff.OpMoveTo
